@@ -1138,3 +1138,15 @@ package process
 //@   callsite[C04] C04.dupFwd process.NewForward#1: arg0.IsSelf && arg1 == processFreeNames[i]
 //@   callsite[C04] C04.dupFwdChild process.NewProcess#2: arg0 == newProcessBody && arg1 == freshChannels[i]
 //@   callsite[C04] C04.dupEnds (*process.Process).terminate#1: arg0 == process
+
+// C19: a run starts from a clean environment, also when the caller hands in an environment that served an earlier run:
+// the counters are reset, the run's channels are made by this call, and the run's context descends from the background
+// context only (never from anything an earlier run left behind).
+//@ spec backgroundCtx() Ref
+//@ external context.Background
+//@   pure
+//@   ensures result == backgroundCtx()
+//@ contract InitializeProcesses
+//@   callsite[C19] C19.freshContext context.WithCancel#1: arg0 == backgroundCtx()
+//@   callsite[C19] C19.cleanCounters (*process.RuntimeEnvironment).CreateChannelForEachProcess#1: arg0.processCount == 0 && arg0.deadProcessCount == 0 && arg0.debugChannelCounter == 0 && arg0.timeTaken == 0
+//@   callsite[C19] C19.freshChannels (*process.RuntimeEnvironment).CreateChannelForEachProcess#1: arg0.errorChan != nil && born(arg0.errorChan) >= old(allocCounter()) && arg0.heartbeat != nil && born(arg0.heartbeat) >= old(allocCounter())
